@@ -199,6 +199,60 @@ pub fn run(tier: Tier) -> i32 {
         }
     });
     ctx.count("local_retry_cases", rjobs.len() as u64);
+    // 3c. EVERY payload length (not an alphabet): transport payloads 0..=65519 for each cipher x backend, in
+    // both directions, stateful and stateless; handshake payloads 0..=max for both messages of NN and the
+    // message of N (the payload path does not depend on the pattern). One session serves a whole sweep.
+    {
+        use crate::exec::{Cap, Msg};
+        let combos = super::common::cipher_backends();
+        // quick: every length below 600 and above 64900, every 5th in between; thorough: every length
+        let lens: Vec<usize> = (0..=65519usize).filter(|l| !quick || *l < 600 || *l > 64900 || l % 5 == 0).collect();
+        let chunks: Vec<(usize, &[usize])> = lens.chunks(lens.len() / 12 + 1).enumerate().collect();
+        let jobs: Vec<(refnoise::CipherAlg, crate::seam::Backend, Mode, Side, usize, &[usize])> = combos
+            .iter()
+            .flat_map(|(c, b)| chunks.iter().flat_map(move |(k, ch)| [(*c, *b, Mode::TT, Side::I, *k, *ch), (*c, *b, Mode::SS, Side::R, *k, *ch)]))
+            .collect();
+        jobs.par_iter().for_each(|(c, b, mode, w, _k, ch)| {
+            let p = super::common::proto("NN", &[], DhAlg::X25519, *c, HashAlg::Sha256);
+            let Some(mut cfg) = cfg_for(&p, 6, Eph2::Scripted) else { return };
+            cfg.backend = [*b, *b];
+            let mut ops = sess::handshake_ops(&p, &[0, 0]);
+            ops.extend(sess::convert_ops(*mode));
+            for (k, len) in ch.iter().enumerate() {
+                if *mode == Mode::SS {
+                    ops.push(Op::SWrite { side: *w, nonce: k as u64, plen: *len, cap: Cap::NeedPlus(0) });
+                    ops.push(Op::SRead { side: w.peer(), nonce: k as u64, msg: Msg::Last(*w), cap: Cap::NeedPlus(0) });
+                } else {
+                    ops.push(Op::TWrite { side: *w, plen: *len, cap: Cap::NeedPlus(0) });
+                    ops.push(Op::TRead { side: w.peer(), msg: Msg::Last(*w), cap: Cap::NeedPlus(0) });
+                }
+            }
+            eval(&cfg, &ops);
+            ctx.count("transport_payload_lengths_swept", ch.len() as u64);
+        });
+        // handshake payloads: one session per length
+        let lens: Vec<usize> = (0..=65535usize).collect();
+        let hp = [super::common::proto("NN", &[], DhAlg::X25519, CipherAlg::ChaChaPoly, HashAlg::Blake2s), super::common::proto("N", &[], DhAlg::X25519, CipherAlg::AesGcm, HashAlg::Sha256)];
+        let step = if quick { 23 } else { 1 };
+        for p in &hp {
+            let ov = overheads(p);
+            let Some(cfg) = cfg_for(p, 7, Eph2::Scripted) else { continue };
+            lens.par_iter().step_by(step).for_each(|len| {
+                let mut pl = vec![0usize; p.n_msgs()];
+                let mut any = false;
+                for k in 0..p.n_msgs() {
+                    if *len <= 65535 - ov[k] {
+                        pl[k] = *len;
+                        any = true;
+                    }
+                }
+                if any {
+                    eval(&cfg, &sess::handshake_ops(p, &pl));
+                }
+            });
+            ctx.count("handshake_payload_length_sessions", (lens.len() / step) as u64);
+        }
+    }
     // 4. labelled sample: OS randomness (not enumerable)
     base.par_iter().for_each(|p| {
         if let Some(cfg) = cfg_for(p, 4, Eph2::Os) {
